@@ -1456,6 +1456,12 @@ def g_bigint(rng, tier):
         for x in ([[1]] if q else [[1], [3], [M64], [1, 1]]):
             add("pow5", x, None, e)
         add("bigint_pow5", [7], None, e)
+    # pow on SINGLE-LIMB operands of every bit length (1..64) and every small value: a native pre-multiplication that
+    # "fits" only by an estimate (bits per power of five) is wrong for one bit length and a few exponents
+    small_x = list(range(1, 71 if q else 300)) + [v for k in range(7, 65, 1 if not q else 3) for v in ((1 << k) - 1, 1 << (k - 1), (1 << (k - 1)) + 1) if v < (1 << 64)]
+    for x1 in small_x:
+        for e in ([1, 13, 24, 25, 26, 27, 28, 55] if q else [1, 2, 13, 14, 24, 25, 26, 27, 28, 40, 54, 55, 135, 136, 162]):
+            add("pow5", [x1], None, e, tag="pow5:single-limb")
     for e in [0, 1, 63, 64, 65, 127, 128, 1000, 3900, 3966, 3967, 3968, 3969, 4031, 4032, 4100]:
         add("shl", [1], None, e)
         add("shl", [M64], None, e)
